@@ -45,6 +45,13 @@ CAND = {
  "dbank": ["DB2", "B1"], "dlva": ["DB2.liq_auth"], "dvliq": ["DB2.liq", "B1.liq"], "duser": ["DB2.duser"], "dstats": ["DB2.dstats"], "dmkt": ["DM2"],
  # Solend integration (stand-in venue)
  "lbank": ["LB2", "B1"], "llva": ["LB2.liq_auth"], "lvliq": ["LB2.liq", "B1.liq"], "lobl": ["LB2.obl"], "lres": ["SR2"], "lprog": ["prog.unknown"],
+ # rows added in round 7 (remaining instructions of the program)
+ "eauth2": ["B1.emis_auth.ME"], "evault2": ["B1.emis_vault.ME"], "emisdest": ["emisadmin.ME", "U2.M1"],
+ "dmkt_bad": ["B1", "KR1"], "duser_pda": ["DB1.duser"], "dstats_pda": ["DB1.dstats"],
+ "dbank3": ["DB1", "B1"], "dlva3": ["DB1.liq_auth"], "dvliq3": ["DB1.liq"], "duser3": ["DB1.duser"], "dstats3": ["DB1.dstats"], "dmkt3": ["DM1"],
+ "sres_bad": ["B1", "KR1"], "lobl_pda": ["LB1.obl"],
+ "lbank3": ["LB1", "B1"], "llva3": ["LB1.liq_auth"], "lvliq3": ["LB1.liq"], "lobl3": ["LB1.obl"], "lres3": ["SR1"],
+ "anygroup": ["B1", "feestate"], "anyacct": ["B1", "G1"], "anybank": ["A1", "G1"],
  "signer": [], "free": [], "payer": [], "new": [],
 }
 
@@ -167,6 +174,44 @@ OPS = {
  "settle_emissions": dict(role="anyone", base={"op":"settle_emissions","acct":"A1","bank":"B1"}, slots=S(("marginfi_account","acct_g"),("bank","bank_g"))),
  "accrue": dict(role="anyone", base={"op":"accrue","bank":"B1"}, slots=S(("group","group"),("bank","bank_g"))),
  "propagate_fee": dict(role="anyone", base={"op":"propagate_fee","group":"G1"}, slots=S(("fee_state","feestate"),("marginfi_group","free"))),
+
+ # ---- round 7: the remaining instructions of the program
+ "setup_emissions": dict(role="emissions_admin", base={"op":"setup_emissions","bank":"B2","mint":"ME","flags":2,"rate":5,"total":1000},
+                   slots=S(("group","group"),("delegate_emissions_admin","signer"),("bank","bank_g"),("emissions_mint","free"),("emissions_auth","eauth2"),("emissions_token_account","evault2"),
+                           ("emissions_funding_account","free"),("token_program","tprog"),("system_program","sprog"))),
+ "init_account": dict(role="anyone", base={"op":"init_account","acct":"N2","group":"G1","authority":"U1"},
+                   slots=S(("marginfi_group","anygroup"),("marginfi_account","new"),("authority","signer"),("fee_payer","payer"),("system_program","sprog"))),
+ "withdraw_emissions_perm": dict(role="anyone", base={"op":"withdraw_emissions_perm","acct":"A1","bank":"B1"},
+                   slots=S(("group","group"),("marginfi_account","acct"),("bank","bank_g"),("emissions_mint","mint"),("emissions_auth","eauth"),("emissions_vault","evault"),
+                           ("destination_account","emisdest"),("token_program","tprog"))),
+ "pulse_health": dict(role="anyone", base={"op":"pulse_health","acct":"A2"}, slots=S(("marginfi_account","anyacct"))),
+ "pulse_price": dict(role="anyone", base={"op":"pulse_price","bank":"B1"}, slots=S(("group","group"),("bank","bank_g"))),
+ "migrate_curve": dict(role="anyone", base={"op":"migrate_curve","bank":"B1"}, slots=S(("bank","anybank"))),
+ "init_metadata": dict(role="anyone", base={"op":"init_metadata","bank":"B3"}, slots=S(("bank","bank_g"),("fee_payer","signer"),("metadata","new"),("system_program","sprog"))),
+ "init_group": dict(role="anyone", grp="G9", base={"op":"init_group","group":"G9","admin":"stranger"},
+                   slots=S(("marginfi_group","new"),("admin","signer"),("fee_state","feestate"),("system_program","sprog"))),
+ "add_bank_drift": dict(role="admin", base={"op":"add_bank_drift","group":"G1","bank":"DB9","market":"DM1","oracle":"O1","setup":9,"seed":29},
+                   slots=S(("group","group"),("admin","signer"),("fee_payer","payer"),("bank_mint","kmint"),("bank","new"),("integration_acc_1","dmkt_bad"),("integration_acc_2","duser_pda"),
+                           ("integration_acc_3","dstats_pda"),("liquidity_vault_authority","free"),("liquidity_vault","free"),("insurance_vault_authority","free"),("insurance_vault","free"),
+                           ("fee_vault_authority","free"),("fee_vault","free"),("token_program","tprog"),("system_program","sprog"))),
+ "add_bank_solend": dict(role="admin", base={"op":"add_bank_solend","group":"G1","bank":"LB9","reserve":"SR1","oracle":"O1","setup":11,"seed":39},
+                   slots=S(("group","group"),("admin","signer"),("fee_payer","payer"),("bank_mint","kmint"),("bank","new"),("integration_acc_1","sres_bad"),("integration_acc_2","lobl_pda"),
+                           ("liquidity_vault_authority","free"),("liquidity_vault","free"),("insurance_vault_authority","free"),("insurance_vault","free"),
+                           ("fee_vault_authority","free"),("fee_vault","free"),("token_program","tprog"),("system_program","sprog"))),
+ "drift_init_user": dict(role="anyone", base={"op":"drift_init_user","bank":"DB3","amount":100},
+                   slots=S(("fee_payer","signer"),("signer_token_account","free"),("bank","dbank3"),("liquidity_vault_authority","dlva3"),("liquidity_vault","dvliq3"),("mint","mint"),
+                           ("integration_acc_3","dstats3"),("integration_acc_2","duser3"),("drift_state","free"),("integration_acc_1","dmkt3"),("drift_spot_market_vault","free"),
+                           ("drift_oracle","free"),("drift_program","kprog"),("token_program","tprog"),("rent","sysrent"),("system_program","sprog"))),
+ "solend_init_obligation": dict(role="anyone", base={"op":"solend_init_obligation","bank":"LB3","amount":100},
+                   slots=S(("fee_payer","signer"),("bank","lbank3"),("signer_token_account","free"),("liquidity_vault_authority","llva3"),("liquidity_vault","lvliq3"),("integration_acc_2","lobl3"),
+                           ("lending_market","free"),("lending_market_authority","free"),("integration_acc_1","lres3"),("mint","mint"),("reserve_liquidity_supply","free"),
+                           ("reserve_collateral_mint","free"),("reserve_collateral_supply","free"),("user_collateral","free"),("pyth_price","free"),("switchboard_feed","free"),
+                           ("solend_program","lprog"),("token_program","tprog"),("rent","sysrent"),("system_program","sprog"))),
+ "init_account_pda": dict(role="anyone", base={"op":"init_account","acct":"NP","group":"G1","authority":"U1","pda":{"index":3}},
+                   slots=S(("marginfi_group","anygroup"),("marginfi_account","new"),("authority","signer"),("fee_payer","payer"),("instructions_sysvar","sysixs"),("system_program","sprog"))),
+ "transfer_account_pda": dict(role="authority3", base={"op":"transfer_account","acct":"A5","new_acct":"NP2","new_authority":"U7","pda":{"index":2,"third_party":77}},
+                   slots=S(("group","group"),("old_marginfi_account","acct_g"),("new_marginfi_account","new"),("authority","signer"),("fee_payer","payer"),("new_authority","free"),
+                           ("global_fee_wallet","feewallet"),("instructions_sysvar","sysixs"),("system_program","sprog"))),
 }
 
 # multi-instruction cells (brackets): the cell's modifiers apply to instruction `k` of the transaction
